@@ -98,6 +98,35 @@ IONS = ['[CH3+]', '[CH3-]', 'C[CH2+]', 'C[CH2-]', 'C[O-]', '[OH-]', 'CC[O-]',
         '[O]C[CH2+]', '[CH2]C[O-]', 'C[O+]', '[CH2+][CH2-]']
 
 
+# molecules whose heavy-atom indices reach two digits and whose bonds join
+# non-consecutive indices (fused / spiro / bridged rings, macrocycles,
+# branches), each also with its atoms renumbered at random: whatever a rule
+# application keys by atom index is exercised with indices 0..15 in every
+# combination, not only the 0..3 of the small pool
+BIG = ['C1C2CCCCCCCCC2C1', 'CC1C2CCCCCCCCC2C1', 'C1CCC2(CC1)CCCCC2',
+       'CC(C)CC(C)(C)CC(C)CC(C)C', 'C1CC2CCC1CC2CCCCC', 'OCC1CCC2CCCC(O)C2C1',
+       'C1CCCCCCCCCCC1', 'CC(=O)CCCCC(C)CCC=C', 'C1CC1CCCCCC1CC1C',
+       'O1CCOCCOCCOCC1', '[CH2]CCCCCCCCCC[CH2]', 'CCCCCCC(CCCCC)CCCC',
+       'C1CC2CC3CC1CC(C2)C3CC', 'OC1CCC(CC1)C1CCC(O)CC1',
+       'C=CCC1CCC(CC=C)CC1CC', 'CC1(C)CCC2(CC1)OCCO2', 'C1CCC2C(C1)CCC1CCCCC21',
+       'CC[CH]CCCC1CCC(C)CC1', 'OOCCCCCCCCCCOO', 'C#CCCCCCC(C)CCC#C']
+
+
+def big_pool(rng, k):
+    """k (smiles, mol, facts, atom_order) entries; atom_order None = as
+    parsed, else the permutation handed to RenumberAtoms."""
+    out = []
+    for s in rng.sample(BIG, min(k, len(BIG))):
+        m = Chem.MolFromSmiles(s)
+        order = None
+        if rng.random() < 0.7:
+            order = list(range(m.GetNumAtoms()))
+            rng.shuffle(order)
+            m = Chem.RenumberAtoms(m, order)
+        out.append((s, m, R.Facts(Chem.AddHs(m)), order))
+    return out
+
+
 def charged_pool():
     if 'ions' not in _pool:
         out = []
@@ -113,7 +142,7 @@ def element_counts(g):
     return collections.Counter(d['z'] for _, d in g.nodes(data=True))
 
 
-def check_rule(ctx, ast, rng, text=None, only=None):
+def check_rule(ctx, ast, rng, text=None, only=None, atom_order=None):
     from pgradd.RINGParser import Read
     text = text or X.render_rule(ast, rng)
     bal = X.balance(ast)
@@ -165,12 +194,23 @@ def check_rule(ctx, ast, rng, text=None, only=None):
     mols = rng.sample(pool, min(len(pool), 14 if ctx.tier == 'quick' else 40))
     if charge:
         mols = mols[:8] + charged_pool()
+    mols = [tuple(x) + (None,) for x in mols]
+    if not charge and len(ast['reactant']['atoms']) <= 4:
+        mols += big_pool(rng, 2 if ctx.tier == 'quick' else 5)
     if only:
         m_ = Chem.MolFromSmiles(only)
-        mols = [(only, m_, R.Facts(Chem.AddHs(m_)))]
-    for smi, mol, facts in mols:
+        if atom_order:
+            m_ = Chem.RenumberAtoms(m_, [int(x) for x in atom_order])
+        mols = [(only, m_, R.Facts(Chem.AddHs(m_)), atom_order)]
+    for smi, mol, facts, order in mols:
+        big = mol.GetNumHeavyAtoms() >= 11
         embs, _ = R.search(ast['reactant'], facts)
         c = dict(case, smiles=smi)
+        if order:
+            c['atom_order'] = order
+        if big and len(embs) > 400:
+            ctx.skip('more than 400 matches on a big molecule (cost)')
+            continue
         ro = observe(q.RunReactants, Chem.Mol(mol))
         ctx.evals()
         refs = []
@@ -207,10 +247,14 @@ def check_rule(ctx, ast, rng, text=None, only=None):
                                'products': dict(element_counts(g))})
                 return
             got.append(g)
-        # multiset comparison up to isomorphism
-        rest = list(refs)
+        # multiset comparison up to isomorphism (bucketed by an isomorphism-
+        # invariant hash first: big molecules have hundreds of product sets)
+        buckets = {}
+        for h in refs:
+            buckets.setdefault(X.signature(h), []).append(h)
         for g in got:
             hit = None
+            rest = buckets.get(X.signature(g), [])
             for k, h in enumerate(rest):
                 if X.isomorphic(g, h):
                     hit = k
@@ -224,6 +268,10 @@ def check_rule(ctx, ast, rng, text=None, only=None):
                 return
             del rest[hit]
         ctx.count('product_sets_compared', len(got))
+        if big:
+            ctx.count('product_sets_compared_on_molecules_of_11_or_more_'
+                      'heavy_atoms', len(got))
+            ctx.maximum('max_atoms_with_hydrogens', facts.mol.GetNumAtoms())
         if charge:
             ctx.count('charge_edit_product_sets_compared', len(got))
         ctx.nontrivial([text, smi])
@@ -264,7 +312,10 @@ def replay(ctx, case):
                       {'msg': o['msg']})
         return
     if 'smiles' in case:
-        prods = o['ok'].RunReactants(Chem.MolFromSmiles(case['smiles']))
+        m0 = Chem.MolFromSmiles(case['smiles'])
+        if case.get('atom_order'):
+            m0 = Chem.RenumberAtoms(m0, [int(x) for x in case['atom_order']])
+        prods = o['ok'].RunReactants(m0)
         print('products:', [[Chem.MolToSmiles(p) for p in ps]
                             for ps in prods])
     if 'ast' in case:
@@ -275,7 +326,8 @@ def replay(ctx, case):
                                   [tuple(b) for b in a['bonds']], a['rname']),
                'edits': [tuple(e) for e in a['edits']]}
         check_rule(ctx, ast, ctx.rng, text=case['rule'],
-                   only=case.get('smiles'))
+                   only=case.get('smiles'),
+                   atom_order=case.get('atom_order'))
         return
     # older replay files: regenerate by template name
     for desc, atoms, bonds, edits in X.templates() + \
